@@ -9,6 +9,8 @@ import (
 	"sort"
 	"strings"
 	"time"
+
+	"verifharness/cmd/c18/corpus"
 )
 
 // populator builds fully populated values by reflection: every pointer non-nil, every slice / map
@@ -307,6 +309,9 @@ func (p *populator) value(t reflect.Type, tag reflect.StructTag) (reflect.Value,
 		}
 		return reflect.ValueOf(b[:n]), true
 	}
+	if me := corpus.MarshalerByType(t); me != nil && me.Make != nil {
+		return me.Make(p.variant, p.next()), true // a standard-library type that cannot be filled by kind
+	}
 	v := reflect.New(t).Elem()
 	switch t.Kind() {
 	case reflect.Bool:
@@ -403,6 +408,17 @@ func (p *populator) value(t reflect.Type, tag reflect.StructTag) (reflect.Value,
 					break
 				}
 				m.SetMapIndex(reflect.ValueOf(k).Convert(t.Key()), ev)
+			}
+		} else {
+			// keys of another kind (integers, encoding.TextMarshaler types): two generated keys
+			for i := 0; i < 2; i++ {
+				kv, kok := p.value(t.Key(), "")
+				ev, ok := p.value(t.Elem(), "")
+				if !ok || !kok {
+					m = reflect.MakeMap(t)
+					break
+				}
+				m.SetMapIndex(kv, ev)
 			}
 		}
 		v.Set(m)
